@@ -74,7 +74,7 @@ type partial struct {
 	Outcomes                     map[string]int64
 	NT                           []uint64
 	NTOverflow                   int64
-	Samples                      []any
+	Samples                      []sampleRec
 	Viol                         []Violation
 	ViolCount                    map[string]int64
 	AllHashes                    map[string][]uint64
@@ -90,7 +90,7 @@ func (c *Ctx) ExportPartial(path string) error {
 	c.mu.Lock()
 	defer c.mu.Unlock()
 	p := partial{Evals: c.Evals.Load(), States: c.States.Load(), Trans: c.Transitions.Load(), Traces: c.Traces.Load(),
-		Outcomes: c.outcomes, NTOverflow: c.ntOverflow, Samples: c.samples, Viol: c.viol, ViolCount: c.violCount,
+		Outcomes: c.outcomes, NTOverflow: c.ntOverflow, Samples: exportSamples(c.samples), Viol: c.viol, ViolCount: c.violCount,
 		AllHashes: c.allHashes, Extra: c.extra, Assume: c.assume, Rule: c.rule, Exhaustive: c.Exhaustive, Spaces: c.spaces}
 	for k := range c.nontrivial {
 		p.NT = append(p.NT, k)
@@ -144,7 +144,7 @@ func (c *Ctx) mergePartial(p *partial, first bool) {
 		c.Exhaustive = false
 	}
 	if first {
-		c.samples = p.Samples
+		c.samples = importSamples(p.Samples)
 		c.assume = p.Assume
 		c.rule = p.Rule
 		c.spaces = p.Spaces
@@ -223,4 +223,36 @@ func tail(s string, n int) string {
 		return s[len(s)-n:]
 	}
 	return s
+}
+
+// sampleRec carries a recorded sample between processes with its case as raw JSON: decoded into
+// `any`, integers above 2^53 would come back as rounded floats and no longer fit their fields.
+type sampleRec struct {
+	Kind string          `json:"kind"`
+	Case json.RawMessage `json:"case"`
+}
+
+func exportSamples(in []any) []sampleRec {
+	var out []sampleRec
+	for _, s := range in {
+		m, ok := s.(map[string]any)
+		if !ok {
+			continue
+		}
+		kind, _ := m["kind"].(string)
+		raw, err := json.Marshal(m["case"])
+		if err != nil {
+			continue
+		}
+		out = append(out, sampleRec{kind, raw})
+	}
+	return out
+}
+
+func importSamples(in []sampleRec) []any {
+	var out []any
+	for _, r := range in {
+		out = append(out, map[string]any{"kind": r.Kind, "case": r.Case})
+	}
+	return out
 }
